@@ -93,6 +93,51 @@ def op_probes(mode: str) -> List[Tuple[str, Dict[str, Any]]]:
     add("AppArg", ret_b(("AppArg", 0)))
     add("LsigArg", ret_b(("LsigArg", 0)))
     add("LsigArg:255", ret_b(("LsigArg", 255)))
+    # remaining public operators, through the generic constructor form
+    def C(name, *args):
+        return ("PyCall", name) + args
+    B32 = ("Txn", "Sender")
+    add("Ed25519Verify", ret_u(C("Ed25519Verify", B0, B1, B32)))
+    add("Ed25519Verify_Bare", ret_u(C("Ed25519Verify_Bare", B0, B1, B32)))
+    for curve in ("Secp256k1", "Secp256r1"):
+        cv = ("PyAttr", "EcdsaCurve." + curve)
+        add("EcdsaVerify:" + curve, ret_u(C("EcdsaVerify", cv, B0, B1, B1, ("PyTuple", B0, B1))))
+        add("EcdsaDecompress:" + curve, ("MultiSeq", C("EcdsaDecompress", cv, B0), ("Return", ("Int", 1))))
+        add("EcdsaRecover:" + curve, ("MultiSeq", C("EcdsaRecover", cv, B0, U0, B1, B1), ("Return", ("Int", 1))))
+    add("Block.seed", ret_b(C("Block.seed", U0)))
+    add("Block.timestamp", ret_u(C("Block.timestamp", U0)))
+    for f in ("bonus", "branch", "fee_sink", "fees_collected", "proposer", "proposer_payout", "protocol", "txn_counter"):
+        add("Block." + f, ("Seq", ("Un", "Pop", C("Block." + f, U0)), ("Return", ("Int", 1))))
+    add("JsonRef.as_uint64", ret_u(C("JsonRef.as_uint64", B0, B1)))
+    add("JsonRef.as_string", ret_b(C("JsonRef.as_string", B0, B1)))
+    add("JsonRef.as_object", ret_b(C("JsonRef.as_object", B0, B1)))
+    add("Base64Decode.std", ret_b(C("Base64Decode.std", B0)))
+    add("Base64Decode.url", ret_b(C("Base64Decode.url", B0)))
+    add("VrfVerify.algorand", ("MultiSeq", C("VrfVerify.algorand", B0, B1, B32), ("Return", ("Int", 1))))
+    add("BoxCreate", ret_u(C("App.box_create", B0, U0)))
+    add("BoxDelete", ret_u(C("App.box_delete", B0)))
+    add("BoxExtract", ret_b(C("App.box_extract", B0, U0, U1)))
+    add("BoxReplace", ("Seq", C("App.box_replace", B0, U0, B1), ("Return", ("Int", 1))))
+    add("BoxLen", ("MultiSeq", C("App.box_length", B0), ("Return", ("MHas",))))
+    add("BoxGet", ("MultiSeq", C("App.box_get", B0), ("Return", ("MHas",))))
+    add("BoxPut", ("Seq", C("App.box_put", B0, B1), ("Return", ("Int", 1))))
+    add("BoxSplice", ("Seq", C("App.box_splice", B0, U0, U1, B1), ("Return", ("Int", 1))))
+    add("BoxResize", ("Seq", C("App.box_resize", B0, U0), ("Return", ("Int", 1))))
+    for curve in ("BN254g1", "BN254g2", "BLS12_381g1", "BLS12_381g2"):
+        cv = ("PyAttr", "EllipticCurve." + curve)
+        add("EcAdd:" + curve, ret_b(C("EcAdd", cv, B0, B1)))
+        add("EcScalarMul:" + curve, ret_b(C("EcScalarMul", cv, B0, B1)))
+        add("EcPairingCheck:" + curve, ret_u(C("EcPairingCheck", cv, B0, B1)))
+        add("EcMultiScalarMul:" + curve, ret_b(C("EcMultiScalarMul", cv, B0, B1)))
+        add("EcSubgroupCheck:" + curve, ret_u(C("EcSubgroupCheck", cv, B0)))
+        add("EcMapTo:" + curve, ret_b(C("EcMapTo", cv, B0)))
+    add("AppParam.address", ("MultiSeq", C("AppParam.address", U0), ("Return", ("MHas",))))
+    for f in ("incentiveEligible", "lastHeartbeat", "lastProposed"):
+        add("AccountParam." + f, ("MultiSeq", C("AccountParam." + f, B32), ("Return", ("MHas",))))
+    add("InnerTxn.amount", ("Seq", ("Itxn", "Begin"), ("ItxnField", "TypeEnum", ("Int", 1)), ("Itxn", "Submit"), ret_u(C("InnerTxn.amount"))))
+    add("InnerTxn.logs", ("Seq", ("Itxn", "Begin"), ("ItxnField", "TypeEnum", ("Int", 1)), ("Itxn", "Submit"), ret_b(C("InnerTxn.last_log"))))
+    add("GeneratedID", ret_u(C("GeneratedID", U0)))
+    add("Global.opcode_budget", ret_u(("Global", "OpcodeBudget")))
     # control constructs
     V = {"i": {"t": "u"}}
     loop = ("Seq", ("Store", "i", ("Int", 0)), ("While", ("Bin", "Lt", ("Load", "i"), U0), ("Store", "i", ("Bin", "Add", ("Load", "i"), ("Int", 1)))),
